@@ -100,6 +100,11 @@ func sanitizersForAttributeValue(c context) ([]string, error) {
 	ret = append(ret, sanitizeHTMLFuncName)
 	sanitizer := sc0.sanitizerName()
 	if !sc0.isURLorTrustedResourceURL() {
+		if sanitizer == "" {
+			// No context-specific sanitizer returns a string here, so stringify the value
+			// to make sure that sanitizeHTML below escapes it whatever its type.
+			sanitizer = evalArgsFuncName
+		}
 		return reverse(appendIfNotEmpty(ret, sanitizer)), nil
 	}
 	urlAttrValPrefix := c.attr.value
